@@ -56,13 +56,16 @@ def wrapper_shape(run, f, sp):
                     "duration == parameter #%s of %s" % (d[2] if okd else "?", fnname), loc=site.loc)
         if okd:
             durations[site.root] = d[2]
-        fut = strip_wrappers(args[1])
+        # the wrapped future may be built by the caller of a shared (inlined) helper and handed in: follow it to where it is made
+        fb, fut = sp.lift(b, args[1])
+        fut = strip_wrappers(fut)
+        ftr = tracer_of(fb)
         base = fut[2] if fut[0] == "call" else None
         okf = base in BASE and (BASE[base] in fnname)
         if okf:
-            bargs = [tr.norm(a) for a in tr.call_args(fut[1])]
-            who = sp.resolve_to_root_param(b, bargs[0])
-            msg = sp.resolve_to_root_param(b, bargs[1])
+            bargs = [ftr.norm(a) for a in ftr.call_args(fut[1])]
+            who = sp.resolve_to_root_param(fb, bargs[0])
+            msg = sp.resolve_to_root_param(fb, bargs[1])
             okf = who[0] in ("param", "clone_of_param") and who[2] == 1 and msg[0] == "param" and msg[2] == 2
         run.require(okf, "O10.1", "future-is-whole-operation:%s" % key,
                     "the future under the timeout in %s is %s, not the complete %s(self, msg)" % (fnname, show(fut), "ask" if "ask" in fnname else "tell"),
